@@ -91,6 +91,13 @@ def main():
         # blocked type-1 matrix == scalar type-1 matrix (x) B
         if not (d["blk_t1_err"] <= 1e-13 * max(d["t1_max"], 1e-300)):
             return "blocked convert_to_1 differs from the scalar type-1 matrix (x) B by %.3g (max entry %.3g) on %d processes" % (d["blk_t1_err"], d["t1_max"], n)
+        # blocked vector (r, -0.5 r) through the blocked gate against the scalar vector r
+        if not (d["blkv_sync_err"] <= 1e-13 * max(d["blkv_max"], 1e-300)):
+            return "blocked sync_0 differs from the scalar sync_0 by %.3g (max entry %.3g) on %d processes" % (d["blkv_sync_err"], d["blkv_max"], n)
+        if not (abs(d["blkv_dot"] - d["blkv_dot_ref"]) <= 1e-12 * abs(d["blkv_dot_ref"]) and abs(d["blkv_norm"] ** 2 - d["blkv_dot_ref"]) <= 1e-12 * abs(d["blkv_dot_ref"])):
+            return "blocked dot/norm2 %.17g / %.17g^2 differ from 1.25 * scalar dot %.17g on %d processes" % (d["blkv_dot"], d["blkv_norm"], d["blkv_dot_ref"], n)
+        if not (abs(d["blkv_maxabs"] - d["blkv_maxabs_ref"]) <= 1e-14 * abs(d["blkv_maxabs_ref"])):
+            return "blocked max_abs_element %.17g differs from the scalar one %.17g on %d processes" % (d["blkv_maxabs"], d["blkv_maxabs_ref"], n)
         # base splitter (join/split): the joined vector is the undecomposed one, the input is left alone, split inverts join
         for k, ref in (("join_norm", "int_norm"), ("join_norm2", "int_norm"), ("int_norm_after_join", "int_norm"), ("aint_norm_after_join", "aint_norm")) if case.get("splitter") else ():
             if not (abs(d[k] - d[ref]) <= 1e-12 * max(abs(d[ref]), 1e-300)):
